@@ -2,6 +2,7 @@ package main
 
 import (
 	"fmt"
+	"sync"
 	"time"
 
 	"reduction.dev/reduction/partitioning"
@@ -379,6 +380,100 @@ func c16Bulk(c *lib.Ctx) {
 	if c.Index < 2 {
 		c.Sample(map[string]any{"options": fmt.Sprintf("%+v", o), "checkpoints_during_flow": cks, "reads_over_512": big})
 	}
+}
+
+// c13RetentionOrder: retention notices reach every operator in the order in which the store issued them, also
+// when an operator is slow to take one (C13 "never names an older one as the only one to keep", at the
+// operators, where it matters: an operator drops every checkpoint older than the named ones).
+func c13RetentionOrder(c *lib.Ctx) {
+	o := pickOpts(c.R)
+	if o.keyGroups == 65535 {
+		o.keyGroups = 256
+	}
+	o.workers = 1 + c.R.Intn(3)
+	o.perSplit = 30 + c.R.Intn(40)
+	x := newRun(c, o)
+	defer x.close()
+	c.OnPanic = func() any { return x.wit() }
+	x.src.SetLimit(0)
+	x.start(0)
+	pos := 0
+	step := func() {
+		pos = min(o.perSplit, pos+2+c.R.Intn(8))
+		x.src.SetLimit(pos)
+		if c.R.Intn(2) == 0 {
+			x.waitCaughtUp()
+		}
+	}
+	step()
+	if x.checkpoint(10*time.Second) == nil {
+		c.Inconclusive("no first checkpoint (job errors %v)", x.cl.JobErrors())
+	}
+	episodes := 1 + c.R.Intn(3)
+	for ep := 0; ep < episodes; ep++ {
+		// the next retention update is slow at one operator (it is held before it is applied) while 1..3 further
+		// checkpoints complete and are published
+		release := make(chan struct{})
+		held := make(chan struct{})
+		var once sync.Once
+		x.cl.Lock()
+		x.cl.HoldRetain = func(node string, ids []uint64) {
+			first := false
+			once.Do(func() { first = true })
+			if first {
+				close(held)
+				<-release
+			}
+		}
+		x.cl.Unlock()
+		step()
+		x.checkpoint(10 * time.Second)
+		select {
+		case <-held:
+			c.Feat("retention_updates_held_at_an_operator", 1)
+			for k := 1 + c.R.Intn(3); k > 0; k-- {
+				step()
+				if x.checkpoint(5*time.Second) != nil {
+					c.Feat("checkpoints_published_while_a_retention_update_was_held", 1)
+				}
+			}
+		case <-time.After(2 * time.Second):
+		}
+		close(release)
+		x.cl.Lock()
+		x.cl.HoldRetain = nil
+		x.cl.Unlock()
+		// let the queued notices arrive
+		for last, stable := -1, 0; stable < 5; {
+			n := len(x.cl.RetainLog())
+			if n == last {
+				stable++
+			} else {
+				last, stable = n, 0
+			}
+			time.Sleep(1 * time.Millisecond)
+		}
+	}
+	x.src.SetLimit(o.perSplit)
+	x.waitCaughtUp()
+	x.checkpoint(10 * time.Second)
+	time.Sleep(3 * time.Millisecond)
+	newest := map[string]uint64{}
+	n := 0
+	for _, rec := range x.cl.RetainLog() {
+		var m uint64
+		for _, id := range rec.IDs {
+			m = max(m, id)
+		}
+		if m < newest[rec.Node] {
+			c.Fail("retention-notice-went-backwards", x.wit("retention_updates_applied", fmt.Sprint(x.cl.RetainLog())), "operator %s applied the retention update %v after it had already applied one that named checkpoint %d: it drops every checkpoint older than the named ones, here the newest completed one", rec.Node, rec.IDs, newest[rec.Node])
+		}
+		newest[rec.Node] = m
+		n++
+	}
+	x.checkHandlers()
+	c.Feat("retention_updates_applied", int64(n))
+	c.SetSig(n > 1, fmt.Sprintf("%+v", o), episodes)
 }
 
 // assignmentOracle: every split assigned to exactly one runner per splitter incarnation, resumed from the checkpointed position.
